@@ -70,7 +70,9 @@ AllowedConstruct == IF ~inited THEN {"uninit"} ELSE {"unit", "error"}
 (*   0 -setup-> 1 -[construct]-> 2 -solve-> 3 -solve-> 3                   *)
 (*   3 -setup|setpd-> 4 -[construct]-> 5 -solve-> 6 -solve-> 6             *)
 (* (construct is skipped by the tree planners; PRM may skip the second one *)
-(* - after set_problem_definition the roadmap is reused)                   *)
+(* - after set_problem_definition the roadmap is reused; setparams may     *)
+(* come right after the first setup or between the phases; at most one     *)
+(* setparams or short solve per history)                                   *)
 (***************************************************************************)
 PhaseOk(name) ==
   Shape # "twophase" \/
